@@ -1335,6 +1335,91 @@ def patched_print_call(cls):
     return ns['__call__']
 
 
+# --------------------------------------------------------------------------------------------------------------------
+# relational nodes with value children (TableParallelize, TableMapRows, TableFilter …): the value child of a relational node is
+# evaluated by the engine in a FRESH scope — only the node's own bindings (`_compute_type`: TableParallelize: nothing;
+# TableMapRows / TableFilter: global, row) — and the rendering of a relational node is that node, never a value Let around it
+
+REL_ARITY = {'TableParallelize': 1, 'TableMapRows': 2, 'TableFilter': 2, 'TableCollect': 1, 'TableCount': 1, 'TableGetGlobals': 1, 'TableRange': 0}
+REL_OWN = {('TableParallelize', 0): [], ('TableMapRows', 1): ['global', 'row'], ('TableFilter', 1): ['global', 'row']}
+
+
+def top_elements(text):
+    """the top-level elements of a parenthesised text `(a b (c d) "e f")` -> ['a', 'b', '(c d)', '"e f"']"""
+    text = text.strip()
+    assert text[0] == '(' and text[-1] == ')', text[:40]
+    out, i, n = [], 1, len(text) - 1
+    while i < n:
+        c = text[i]
+        if c in ' \n\t':
+            i += 1
+            continue
+        j = i
+        if c == '(':
+            depth = 0
+            while True:
+                ch = text[j]
+                if ch in '"`':
+                    j += 1
+                    while text[j] != ch:
+                        j += 2 if text[j] == '\\' else 1
+                elif ch == '(':
+                    depth += 1
+                elif ch == ')':
+                    depth -= 1
+                    if depth == 0:
+                        break
+                j += 1
+            j += 1
+        elif c in '"`':
+            j += 1
+            while text[j] != c:
+                j += 2 if text[j] == '\\' else 1
+            j += 1
+        else:
+            while j < n and text[j] not in ' \n\t()':
+                j += 1
+        out.append(text[i:j])
+        i = j
+    return out
+
+
+def rel_walk(rendered, plain):
+    """parallel walk over the rendered and the plain text of a relational tree ->
+    (problem | None, [(node head, child index, own bindings, rendered child text, plain child text)], skeleton rendered, skeleton plain)"""
+    out = []
+
+    def go(r, p):
+        pe = top_elements(p)
+        head = pe[0]
+        if head not in REL_ARITY:
+            raise ValueError(f'harness: relational node {head} is outside the generated set')
+        re_ = top_elements(r)
+        if re_[0] != head:
+            return (f'the rendering of the relational node ({head} …) is ({re_[0]} {" ".join(re_[1:3])[:60]} …): a relational node must be '
+                    'rendered as that node, a value binding cannot enclose it'), f'({re_[0]} …)', f'({head} …)'
+        k = REL_ARITY[head]
+        if len(re_) != len(pe) or re_[:len(re_) - k] != pe[:len(pe) - k]:
+            return f'the rendering of ({head} …) differs from the node in its head', ' '.join(re_[:len(re_) - k]), ' '.join(pe[:len(pe) - k])
+        rs, ps, prob = [], [], None
+        for i in range(k):
+            rc, pc = re_[len(re_) - k + i], pe[len(pe) - k + i]
+            if (head, i) in REL_OWN:
+                out.append((head, i, REL_OWN[(head, i)], rc, pc))
+                rs.append('_')
+                ps.append('_')
+            else:
+                q, a, b = go(rc, pc)
+                prob = prob or q
+                rs.append(a)
+                ps.append(b)
+        mk = lambda xs, cs: '(' + ' '.join(xs[:len(xs) - k] + cs) + ')'
+        return prob, mk(re_, rs), mk(pe, ps)
+
+    prob, a, b = go(rendered, plain)
+    return prob, out, a, b
+
+
 def ensure_reader_built():
     """the driver imports Model/ExprIRRead.lean, which no Props module imports: `lake build <Props>` alone would leave a stale
     reader behind after an edit (the driver would then answer from the old olean).  Cheap when up to date."""
@@ -1378,7 +1463,10 @@ class C35(Prop):
             'objects wherever they are well-scoped (under lambdas, in If branches, in Let bodies, across binders of the same name, in '
             'aggregation scope; one aggregation / AggFilter / AggExplode / AggGroupBy object under and outside such a node, twice under it, '
             'under two of them; a binder variable of AggLet / AggExplode inside an argument shared by two aggregation-scope positions), '
-            'plus 3 random environments for the free variables; non-trivial = the real renderer lifted at least one '
+            'plus 3 random environments for the free variables; 12% `rel` cases: a relational tree TableParallelize / TableRange -> TableMapRows -> '
+            'TableFilter under TableCollect / TableCount / TableGetGlobals or bare, whose value children are roots of one DAG (closed sub-DAGs '
+            'shared inside and across them), checked child by child in the fresh scope of the node own bindings plus the relational skeleton; '
+            'non-trivial = the real renderer lifted at least one '
             'binding; distinct by full case')
     trusted = ['harness/hailenv.py StubBackend (no engine); decorator / deprecated / parsimonious shims on the import path of `hail`',
                'Model/ExprIRRead.lean (reader of the renderer text, n-ary nodes -> cons cells) and its Python twin in harness/props/c35.py',
@@ -1490,9 +1578,38 @@ class C35(Prop):
             objs.append(o)
         return objs if all_objs else objs[case['root']]
 
+    def build_rel(self, case):
+        """the relational tree of a `rel` case as real hail.ir objects (value children built from ONE DAG: node objects are shared
+        inside and ACROSS the value children)"""
+        ir, T = self.ir, self.T
+        objs = self.build(case, all_objs=True)
+        rel = case['rel']
+        if rel['par']:
+            fields = [(f'a{i}', objs[r]) for i, r in enumerate(rel['par'])]
+            row_t = T.tstruct(**{f: o.typ for f, o in fields})
+            rows = ir.MakeArray([ir.MakeStruct(fields) for _ in range(rel.get('nrows', 1))], T.tarray(row_t))
+            glob = ir.MakeStruct([('gl', objs[rel['glob']])] if rel.get('glob') is not None else [])
+            t = ir.TableParallelize(ir.MakeStruct([('rows', rows), ('global', glob)]), None)
+            key_field = 'a0'
+        else:
+            t = ir.TableRange(5, None)
+            key_field = 'idx'
+        if rel['map']:
+            row = ir.Ref('row', t.typ.row_type)
+            t = ir.TableMapRows(t, ir.Let('g0', ir.GetField(row, key_field),
+                                          ir.InsertFields(ir.Ref('row', t.typ.row_type), [(f'm{i}', objs[r]) for i, r in enumerate(rel['map'])], None)))
+        if rel.get('filt') is not None:
+            row = ir.Ref('row', t.typ.row_type)
+            t = ir.TableFilter(t, ir.Let('g0', ir.GetField(row, key_field), objs[rel['filt']]))
+        return {'bare': lambda: t, 'collect': lambda: ir.TableCollect(t), 'count': lambda: ir.TableCount(t),
+                'globals': lambda: ir.TableGetGlobals(t)}[rel['top']]()
+
     def render(self, case):
         key = json.dumps(case, sort_keys=True)
         r = self.cache.get(key)
+        if r is None and case.get('rel'):
+            root = self.build_rel(case)
+            r = self.cache[key] = (' '.join(self.CSERenderer()(root).split()), ' '.join(str(root).split()))
         if r is None:
             root = self.build(case)
             rendered = self.CSERenderer()(root)
@@ -1517,9 +1634,45 @@ class C35(Prop):
         envs = [{n: gen_value(rng, ty) for n, ty in free.items()} for _ in range(3)]
         return {'nodes': nodes, 'root': root, 'free': free, 'envs': envs}
 
+    def gen_rel_case(self, rng, size):
+        """a relational tree TableParallelize / TableRange -> TableMapRows -> TableFilter (-> TableCollect / TableCount / TableGetGlobals)
+        whose value children are roots of ONE DAG: closed roots (TableParallelize's rows and globals — no variable at all is in scope
+        there) and roots over g0 = a field of the row (TableMapRows / TableFilter); closed sub-DAGs are shared across the value children"""
+        g = Gen(rng, share=rng.choice([0.4, 0.55, 0.7]), shadow=rng.choice([0.0, 0.15]), use_agg=False)
+        closed, opened = Scope({}, None), Scope({'g0': I32}, None)
+        par = [g.expr(I32, closed, size)] + [g.expr(rng.choice([I32, BOOL, ['arr', I32]]), closed, size) for _ in range(rng.choice([0, 1, 2]))]
+        if rng.random() < 0.15:
+            par = []
+        glob = g.expr(rng.choice([I32, ['arr', I32]]), closed, size) if par and rng.random() < 0.4 else None
+        mp = [g.expr(rng.choice([I32, I32, BOOL, ['arr', I32]]), opened, size) for _ in range(rng.choice([0, 1, 2, 2]))]
+        filt = g.expr(BOOL, opened, size) if rng.random() < 0.5 else None
+        roots = par + ([glob] if glob is not None else []) + mp + ([filt] if filt is not None else [])
+        if not roots:
+            return self.gen_rel_case(rng, size)
+        top = g.add(['tuple', roots], ['tup', []], {}, {}, False)
+        nodes, root, _ = prune(g.nodes, top)
+        rs = list(nodes[root][1])
+        k = 0
+        rel = {'par': rs[k:k + len(par)], 'nrows': rng.choice([1, 1, 2])}
+        k += len(par)
+        if glob is not None:
+            rel['glob'] = rs[k]
+            k += 1
+        rel['map'] = rs[k:k + len(mp)]
+        k += len(mp)
+        rel['filt'] = rs[k] if filt is not None else None
+        rel['top'] = rng.choice(['bare', 'bare', 'collect', 'count'] + (['globals'] if par else []))
+        return {'nodes': nodes, 'root': root, 'free': {'g0': 'i32'}, 'envs': [], 'rel': rel}
+
     def cases(self, rng, n, tier):
         made = 0
         while made < n:
+            if rng.random() < 0.12:
+                c = self.gen_rel_case(rng, rng.choice([1, 2, 2, 3, 3]))
+                if len(c['nodes']) <= 160:
+                    made += 1
+                    yield c
+                continue
             c = self.gen_case(rng, rng.choice([2, 3, 4, 4, 5, 5, 6]))
             if len(c['nodes']) > 160:
                 continue
@@ -1533,7 +1686,17 @@ class C35(Prop):
             return show_val(val_of_json(j))
         return '(' + ' '.join(f'({n} {sv(v)})' for n, v in sorted(env.items())) + ')'
 
+    def rel_parts(self, c):
+        r, p = self.render(c)
+        return (r, p) + rel_walk(r, p)
+
     def model_lines(self, c):
+        if c.get('rel'):
+            try:
+                r, p, prob, kids, sr, sp = self.rel_parts(c)
+            except Exception as e:
+                return [f'echo ||| render-exc {type(e).__name__}']
+            return [f'skel ||| {sr} ||| {sp}'] + [f'val ||| {",".join(own) or "-"} ||| {rc} ||| {pc}' for _, _, own, rc, pc in kids]
         try:
             r, p = self.render(c)
         except Exception as e:
@@ -1554,6 +1717,18 @@ class C35(Prop):
         return R, P, G
 
     def impl(self, c):
+        if c.get('rel'):
+            try:
+                r, p, prob, kids, sr, sp = self.rel_parts(c)
+            except Exception as e:
+                return [f'render-exc {type(e).__name__}']
+            out = [str(int(sr == sp and not sr.startswith('(Let ')))]
+            for _, _, own, rc, pc in kids:
+                R, P, G = read_ir(rc), read_ir(pc), frozenset(own)
+                bs = cse_binders(R)
+                flags = (validate(R, P), scope_ok(R, G, None), scope_ok(P, G, None), branch_local(R))
+                out.append('v=%d s=%d p=%d g=%d b=%s' % (*map(int, flags), ','.join(f'{n}:{k}' for n, k in bs) or '-'))
+            return out
         try:
             R, P, G = self.analyse(c)
         except Exception as e:      # the real renderer raised: canonical line (the model side echoes it), judged by the oracle
@@ -1568,8 +1743,29 @@ class C35(Prop):
         return out
 
     # ---- oracle ---------------------------------------------------------------------------------------------------
+    def check_rel(self, c):
+        r, p, prob, kids, sr, sp = self.rel_parts(c)
+        if prob:
+            return prob + '; rendered = ' + r[:400]
+        if sr != sp:
+            return 'the relational skeleton of the rendering differs from the tree: ' + sr[:200] + ' vs ' + sp[:200]
+        for head, i, own, rc, pc in kids:
+            R, P, G = read_ir(rc), read_ir(pc), frozenset(own)
+            where = f'value child {i} of {head} (the engine evaluates it with only {sorted(own) or "NOTHING"} in scope)'
+            if not scope_ok(P, G, None):
+                return 'harness: the generated value child itself is ill-scoped ' + repr(unbound_refs(P, G, None, []))
+            if not scope_ok(R, G, None):
+                return (f'{where}: the rendering uses {sorted(set(unbound_refs(R, G, None, [])))} bound outside the node; rendered = ' + r[:400])
+            if not validate(R, P):
+                return f'{where}: the verified validator rejects the rendering of the child; rendered child = ' + rc[:400]
+            if not branch_local(R):
+                return f'{where}: a lifted binding is referenced from inside an If branch but bound outside it; rendered child = ' + rc[:400]
+        return None
+
     def check(self, c):
         """the property on the real renderer's output -> None or message"""
+        if c.get('rel'):
+            return self.check_rel(c)
         R, P, G = self.analyse(c)
         if not scope_ok(P, G, None):
             return 'harness: the generated DAG itself is ill-scoped ' + repr(unbound_refs(P, G, None, []))
@@ -1656,6 +1852,16 @@ class C35(Prop):
 
     # ---- distribution ---------------------------------------------------------------------------------------------
     def classify(self, c, out):
+        if c.get('rel'):
+            if not out or out[0] not in ('0', '1'):
+                return (None, ['renderer-raised' if out and out[0].startswith('render-exc') else 'impl-error'])
+            rel = c['rel']
+            lifted = sum(0 if m.group(1) == '-' else len(m.group(1).split(',')) for m in (re.search(r'b=(\S+)', o) for o in out[1:]) if m)
+            tags = ['relational', 'rel-top:' + rel['top'], 'rel-value-children=%d' % (len(out) - 1), 'rel-lifted=%s' % min(lifted, 6),
+                    'rel-source:' + ('TableParallelize' if rel['par'] else 'TableRange')]
+            self.stats['programs'] += 1
+            self.stats['verified'] += int(all(o.startswith('v=1') for o in out[1:]))
+            return (json.dumps(c, sort_keys=True) if lifted else None, tags)
         if not out or not out[0].startswith('v='):
             return (None, ['renderer-raised' if out and out[0].startswith('render-exc') else 'impl-error'])
         m = re.match(r'v=(\d) s=(\d) p=(\d) g=(\d) b=(\S+)', out[0])
@@ -1742,6 +1948,28 @@ class C35(Prop):
 
     # ---- shrinking ------------------------------------------------------------------------------------------------
     def shrink(self, c, fails):
+        if c.get('rel'):
+            cur = c
+            for fld in ('filt', 'glob'):
+                if cur['rel'].get(fld) is not None:
+                    cand = dict(cur, rel=dict(cur['rel'], **{fld: None}))
+                    if fails(cand):
+                        cur = cand
+            for fld in ('map', 'par'):
+                changed = True
+                while changed:
+                    changed = False
+                    lst = cur['rel'][fld]
+                    for i in range(len(lst) - 1, 0 if fld == 'par' else -1, -1):
+                        cand = dict(cur, rel=dict(cur['rel'], **{fld: lst[:i] + lst[i + 1:]}))
+                        if fails(cand):
+                            cur, changed = cand, True
+                            break
+            if cur['rel'].get('nrows', 1) > 1:
+                cand = dict(cur, rel=dict(cur['rel'], nrows=1))
+                if fails(cand):
+                    cur = cand
+            return cur
         cur = c
         changed = True
         while changed:
